@@ -53,6 +53,9 @@ def pointwiseAggregates {K : Type} [Mul K] [Zero K] [LT K] [DecidableLT K]
     match plainAggregates epsSq A with
     | .ok a =>
       let ci := removeSmallAggregates 1 minAggregate (a.count, a.id)
+      -- fix ffc3988: every aggregate was too small -> `error::empty_level` (thrown at the end of `remove_small_aggregates`,
+      -- which returns early for `min_aggregate <= 1`)
+      if 1 < minAggregate ∧ ci.1 = 0 then .emptyLevel else
       .ok { count := ci.1, strong := a.strong, id := ci.2 }
     | .emptyLevel => .emptyLevel
     | .precondition => .precondition
@@ -63,6 +66,7 @@ def pointwiseAggregates {K : Type} [Mul K] [Zero K] [LT K] [DecidableLT K]
       | .ok pw =>
         let ci := removeSmallAggregates blockSize minAggregate (pw.count, pw.id)
         let G := zipGraph Ap pw.strong
+        if 1 < minAggregate ∧ ci.1 = 0 then .emptyLevel else
         .ok { count := ci.1 * blockSize,
               id := Array.ofFn (n := Ap.nrows * blockSize) fun ia =>
                 (blockSize : Int) * ci.2.getD (ia.val / blockSize) 0 + ((ia.val % blockSize : Nat) : Int),
